@@ -74,6 +74,8 @@ def check(ctx, rep):
     dec_fn = MOD + "::decrypt::decrypt"
     eh = MOD + "::encrypt::EncrypterHalf"
     dh = MOD + "::decrypt::DecrypterHalf"
+    enc_fn = ciphers.raw_callee(ctx, eh + "::encrypt", enc_fn)
+    dec_fn = ciphers.raw_callee(ctx, dh + "::decrypt", dec_fn)
     ciphers.step_rule(ctx, rep, enc_fn, "enc", KEYLEN)
     ciphers.step_rule(ctx, rep, dec_fn, "dec", KEYLEN)
     ciphers.state_census(ctx, rep, eh, eh + "::new", {eh + "::encrypt"})
